@@ -18,7 +18,7 @@ from . import fakenet, reqwire
 
 CONNECT_KINDS = {"refused", "ctimeout", "gaierror", "cbase"}
 SEND_KINDS = {"epipe", "sreset", "sother", "sbase"}
-RECV_KINDS = {"rtimeout", "rreset", "eof", "garbage", "short_eof", "short_timeout", "rbase"}
+RECV_KINDS = {"rtimeout", "rreset", "eof", "garbage", "short_eof", "short_timeout", "rbase", "rssl"}
 
 
 class Interrupt(KeyboardInterrupt):
@@ -104,6 +104,9 @@ class ScriptServer(fakenet.Endpoint):
             if at == "head" or (at == "body" and head_before):
                 st["fault_fired"] = True
                 st["att"]["phase"] = "send-fault"
+                if o["o"] in ("epipe", "sreset"):
+                    # the peer has reset the connection: a later recv on this socket fails the same way
+                    sock.rx.append(("exc", ConnectionResetError(errno.ECONNRESET, "Connection reset by peer")))
                 self._raise_send(o)
         sock.tx += data
         msgs, left, err = reqwire.parse_stream(bytes(sock.tx))
@@ -186,6 +189,10 @@ class ScriptServer(fakenet.Endpoint):
             data = fakenet.response_bytes(200, [], body[:10], "cl", True, declared_length=40)
             self.reply(sock, data, o.get("seg"))
             rx.append(fakenet.EOF if k == "short_eof" else fakenet.NEVER)
+        elif k == "rssl":
+            import ssl
+
+            rx.append(("exc", ssl.SSLError(1, "[SSL: DECRYPTION_FAILED_OR_BAD_RECORD_MAC] decryption failed or bad record mac (_ssl.c:2580)")))
         elif k == "rbase":
             exc = Interrupt("injected at receive")
             self.injected.append(exc)
